@@ -55,7 +55,7 @@ class LoopMixin:
     # ---- iteration descriptors ------------------------------------------------------------
     def iter_desc(self, node, st, sink):
         """-> [(state, IterDesc)]"""
-        if isinstance(node, ast.Call) and isinstance(node.func, ast.Name) and node.func.id in ("reversed", "enumerate", "range", "zip", "list", "tuple", "sorted"):
+        if isinstance(node, ast.Call) and isinstance(node.func, ast.Name) and node.func.id in ("reversed", "enumerate", "range", "zip", "list", "tuple", "sorted", "chain"):
             fn = node.func.id
             if fn in ("list", "tuple"):
                 return self.iter_desc(node.args[0], st, sink)
@@ -88,6 +88,20 @@ class LoopMixin:
                     for s2, b in self.iter_desc(node.args[1], s, sink):
                         n = z3.If(a.n <= b.n, a.n, b.n)
                         out.append((s2, IterDesc(n, (lambda a, b: lambda i: ops.make_tuple([a.elem(i), b.elem(i)]))(a, b))))
+                return out
+            if fn == "chain" and len(node.args) == 2:
+                # itertools.chain(a, b): the elements of a, then those of b
+                out = []
+                for s, a in self.iter_desc(node.args[0], st, sink):
+                    for s2, b in self.iter_desc(node.args[1], s, sink):
+                        def elem(i, a=a, b=b):
+                            ea, eb = a.elem(i), b.elem(i - a.n)
+                            if ea is None:
+                                return eb
+                            if eb is None:
+                                return ea
+                            return SV(ea.t, z3.If(i < a.n, ea.e, ops.coerce(eb, ea.t).e))
+                        out.append((s2, IterDesc(a.n + b.n, elem)))
                 return out
             raise Unsupported("iteration over %s(...)" % fn)
         if isinstance(node, ast.Call) and isinstance(node.func, ast.Attribute) and node.func.attr == "items" and not node.args:
